@@ -93,3 +93,14 @@ claim("C06", "other",
       "Decides layout agreement: per packet type marshal = unmarshal (field by field) in package sftp, both = the SFTP v3 draft layout = the filexfer sibling's encoder and decoder; attribute blocks by flag in four functions = the draft, flag and type-code constants equal across packages; length prefix = len(header)+len(payload)-4 with header first; big-endian primitives with matching shifts; no decode drops its rest buffer while decoding continues; StatVFS field order/width. Value-level round trips beyond these shapes are not decided.",
       "Trusted: encoding/binary; oracle layouts in DESIGN.md Appendix A.1/A.2.",
       "DESIGN.md section 4, C06")
+
+claim("C08", "proof",
+      "bounds prover over SSA: linear integer facts from dominating guards, slice/make/copy/io definitions, field memory with the Buffer invariant, inferred callee requires/ensures, decided by Fourier–Motzkin refutation (zone/affine abstract interpretation, no execution)",
+      "Every index, slice, make, non-comma-ok assertion, explicit panic, division and length-contract call in the decode cone of both codecs (about 150 functions) is an obligation; all are discharged on amd64 (quick) and additionally on 386 (thorough). Allocation sizes are proved bounded by a constant or by the input length; the 256 KiB and zero-length limits are proved to hold at the body allocation and read on every path; a failed body read never returns a nil error. Discharging all obligations is sufficient for 'total and bounded' modulo the trusted base.",
+      "Trusted: Go slice/copy/io.ReadFull semantics, prover soundness, slice lengths < 2^31, non-nil receivers, no recursion in the cone, encoding/binary for StatVFS.",
+      "DESIGN.md section 4, C08")
+claim("C20", "other",
+      "the C08 bounds prover applied to reply-derived data in every Client/File method and background goroutine, plus the decoders they call; axiom 'delivered payload >= 4 bytes' proved where results are built; structural default-arm and no-panic rules",
+      "Decides that no index/slice/make on data derived from a server reply can panic in the client (callers and background goroutines), that allocations in the reply decoders are bounded by the input, that every reply-type switch ends in an error and that decoders only return errors. Level 'other': it covers panics and allocation bounds of decoding, not the claim that the Client stays usable afterwards.",
+      "Trusted base as C08; binary.Read for StatVFS.",
+      "DESIGN.md section 4, C20")
